@@ -77,6 +77,54 @@ def input_mode_is_read_only(chk):
     ])
 
 
+def cbc_split_room(chk):
+    """TLS 1.0 CBC records of application data are split 1 / n-1: cbc_encrypt() builds the extra one-byte record *in front of* the
+    payload, at buf - 4 - ((mac_len + blen + 1) & ~(blen - 1)); cbc_max_plaintext() is what reserves that room when it tells the
+    engine where the application may write (*start += ...).  The two expressions live in different functions and must be the same
+    quantity: reserve less, and the extra record's header is written before the start of the caller's buffer and the engine then
+    offers nothing coherent.  Symbolic forms over (mac_len, blen): increment of *start + offset of the extra record = 0."""
+    from .. import sym
+    R = 'cbc-split-room-agrees'
+    src = 'src/ssl/ssl_rec_cbc.c'
+    u = build.load_unit(src)
+    FM = next((irf.Func(u, f) for f in u['functions'] if f['name'] == 'cbc_max_plaintext' and f.get('blocks')), None)
+    FE = next((irf.Func(u, f) for f in u['functions'] if f['name'] == 'cbc_encrypt' and f.get('blocks')), None)
+    if FM is None or FE is None:
+        raise AnalysisBroken('cbc_max_plaintext / cbc_encrypt vanished')
+    SM, SE = sym.Sym(FM, leaf_vars=('blen',)), sym.Sym(FE, leaf_vars=('blen', 'buf', 'len'))
+
+    def has_and(t):
+        return any(k[0] == 'op' and k[1] == 'and' for k, v in t[1])
+    inc = None
+    for i in FM.insts.values():
+        if i['op'] == 'store' and FM.addr_of(i['ops'][1]) == ({'k': 'a', 'v': 1}, 0):
+            t = SM.sym(i['ops'][0])
+            if has_and(t):
+                d = {k: v for k, v in t[1] if not (k[0] == 'load' and k[2] == 0 and "'v', 1" in k[1])}
+                inc = (SM.aff(d, t[2]), i)
+    off = None
+    for i in FE.insts.values():
+        if i['op'] == 'getelementptr':
+            t = SE.sym({'k': 'i', 'v': i['id']})
+            if has_and(t) and any(k in (('var', 'data'), ('arg', 3)) for k, v in t[1]):
+                d = {k: v for k, v in t[1] if k not in (('var', 'data'), ('arg', 3))}
+                off = (SE.aff(d, t[2]), i)
+    inst = 'cbc_max_plaintext reserves exactly the room cbc_encrypt uses for the extra record of the 1/n-1 split'
+    if inc is None or off is None:
+        chk.violation(R, inst, src, 'the two expressions were not identified (%s, %s)' % (inc is not None, off is not None), key='%s shape' % R)
+        return
+    d = dict(inc[0][1])
+    for k, v in off[0][1]:
+        d[k] = d.get(k, 0) + v
+    rest = {k: v for k, v in d.items() if v}
+    cst = inc[0][2] + off[0][2]
+    if not rest and cst == 0:
+        chk.ok(R, inst, FM.where(inc[1]), 'both are %s' % sym.show(inc[0])[:120])
+    else:
+        chk.violation(R, inst, FM.where(inc[1]), 'reserved: %s; used: %s - they differ, the extra record does not start where the reserved room starts'
+                      % (sym.show(inc[0])[:150], sym.show(off[0])[:150]), key=R)
+
+
 def run(tier):
     chk = report.Check('C06', tier,
                        'Static clauses of state/buffer consistency: the failure latch (only br_ssl_engine_fail and the two buffer-reset functions '
@@ -224,6 +272,7 @@ def run(tier):
     chk.floor('obligations', len(chk.obls), 30)
     buffers_disjoint(chk)
     input_mode_is_read_only(chk)
+    cbc_split_room(chk)
     # a reset context starts from defined engine state (shared with C01)
     from .c01 import handshake_state_reset
     handshake_state_reset(chk)
